@@ -238,7 +238,7 @@ func genC18(r *simrt.Rand, tier string) *simrt.Plan {
 			if nodes == 1 && r.Bool(0.5) {
 				ops = append(ops, simrt.Op{K: "restart"})
 			} else {
-				ops = append(ops, simrt.Op{K: "sleep", I: []int64{int64(simrt.Pick(r, 3600, 86400, 40*86400))}})
+				ops = append(ops, simrt.Op{K: "sleep", I: []int64{int64(simrt.Pick(r, 600, 3600, 86400, 2*86400))}})
 			}
 		}
 	}
